@@ -249,6 +249,22 @@ Proof.
   exact (C05_selected_le_all cand try_fit4 l2 m2 k2 m1 k1 H2 Hk2 (Hincl m1 In1) Hk1).
 Qed.
 
+(* ... and the same for Univariate.fit: whether it raises the AttributeError of "no candidate fitted" does not
+   depend on the order of the candidates. *)
+Theorem C05_fit_all_fail_order_independent : forall cand (try_fit4 : cand -> outcome) refit l1 l2,
+  Permutation l1 l2 ->
+  (gen_univariate_fit cand try_fit4 refit l1 = FitErr AttributeError_NoneType_fit <->
+   gen_univariate_fit cand try_fit4 refit l2 = FitErr AttributeError_NoneType_fit).
+Proof.
+  assert (K : forall cand (try_fit4 : cand -> outcome) refit l,
+            gen_univariate_fit cand try_fit4 refit l = FitErr AttributeError_NoneType_fit <->
+            gen_select_univariate cand try_fit4 l = PyNone).
+  { intros cand try_fit4 refit l. unfold gen_univariate_fit.
+    destruct (gen_select_univariate cand try_fit4 l) as [|m]; [split; reflexivity|].
+    destruct (refit m); split; intros H; discriminate. }
+  intros cand try_fit4 refit l1 l2 HP. rewrite !K. apply C05_none_order_independent. exact HP.
+Qed.
+
 (* non-vacuity: two orderings of three candidates with a tie select different candidates with equal statistics *)
 Example C05_demo_order :
   let f := fun m : nat => match m with 0%nat => Ks (1#2) | 1%nat => Ks (1#4) | 2%nat => Ks (2#8) | _ => Raised end in
@@ -478,6 +494,7 @@ Print Assumptions C05_skips_failures.
 Print Assumptions C05_none_order_independent.
 Print Assumptions C05_min_ks_order_independent.
 Print Assumptions C05_more_candidates_never_worse.
+Print Assumptions C05_fit_all_fail_order_independent.
 Print Assumptions C05_tree_is_repo_tree.
 Print Assumptions C05_candidate_lists.
 Print Assumptions C05_filters_sound.
